@@ -225,11 +225,18 @@ func (r *Run) epochPipeline(full bool) {
 			spec = c
 		}
 		if spec != nil {
-			for _, g := range Guards(spec.Block()) {
+			// the outcomes known at the speciate call, also through the error result of a size check that was moved
+			// into a helper (`if err := check(babies, n); err != nil { return err }`): behind `err == nil` holds
+			// what holds on every edge on which that error can be nil
+			list := spec.Common().Args[2]
+			for _, g := range c02EffGuards(spec.Block(), list) {
 				gt := etm.Of(g.Cond)
-				if gt.Op == "bin" && ((gt.Name == "!=" && !g.True) || (gt.Name == "==" && g.True)) && gt.Args[0].Op == "len" && strings.HasSuffix(gt.Args[1].String(), ".PopSize") {
+				if !(gt.Op == "bin" && ((gt.Name == "!=" && !g.True) || (gt.Name == "==" && g.True))) {
+					continue
+				}
+				for _, o := range [][2]*Term{{gt.Args[0], gt.Args[1]}, {gt.Args[1], gt.Args[0]}} {
 					// the list measured is the list speciated
-					if gt.Args[0].Args[0].V == spec.Common().Args[2] {
+					if o[0].Op == "len" && strings.HasSuffix(o[1].String(), ".PopSize") && o[0].Args[0].V == list {
 						okCheck = true
 					}
 				}
@@ -595,8 +602,22 @@ func (r *Run) deltaCodingTotal() {
 	var zero []*ssa.Store
 	ip := &IterPath{}
 	ps := newPathState(tm, ip)
+	// zeroing loops: position from which on every species of the sorted list gets quota 0
+	type tail struct {
+		from int64
+		loop *Loop
+	}
+	zeroFrom := map[*ssa.Store]tail{}
 	for _, st := range FieldStores(fn, eo) {
 		at := tm.Of(st.Addr)
+		if InnermostLoop(loops, st.Block()) != nil {
+			// index loop from k, range over sorted[k:], or loop over all positions with the store under `i >= k`
+			if from, l, ok := c02TailCover(fn, loops, st, 1); ok {
+				zero = append(zero, st)
+				zeroFrom[st] = tail{from, l}
+				continue
+			}
+		}
 		if !(at.Args[0].Op == "elem" && isParamIdx(at.Args[0].Args[0], 1)) {
 			r.Bad("delta.target", p.Pos(st.Pos()), "deltaCoding sets the quota of "+at.String()+", not of a species of the sorted list")
 			continue
@@ -627,42 +648,37 @@ func (r *Run) deltaCodingTotal() {
 		ok := distinct && total.Equal(want)
 		r.Check(ok, fmt.Sprintf("delta.total[%d species]", len(as)), p.Pos(as[0].st.Pos()), fmt.Sprintf("quotas assigned to species %v total PopSize", keysOf(seen)),
 			fmt.Sprintf("delta coding assigns quotas %s to species %v, which is not exactly PopSize: the next generation has the wrong size", total, keysOf(seen)))
-		// all other species get zero: a loop from len(as) to len(sorted) in the same branch, or no further species can exist
-		more := false
-		for _, g := range Guards(blk) {
-			gt := tm.Of(g.Cond)
-			if gt.Op == "bin" && gt.Args[0].String() == "len(p1)" && ((gt.Name == ">" && g.True) || (gt.Name == "<=" && !g.True)) {
-				more = true
-			}
-		}
-		if more {
+		// all other species get zero - unless no further species can exist in this branch (len(sorted) <= len(as)):
+		// a loop that gives quota 0 to every position from len(as) on, run whenever this branch runs
+		if !c02LenAtMost(tm, Guards(blk), "p1", int64(len(as))) {
 			okZero := false
+			// the species that receive the population are the first len(as) of the list
+			first := true
+			for _, a := range as {
+				k := constTermOfString(a.idx)
+				if k < 0 || k >= int64(len(as)) {
+					first = false
+				}
+			}
 			for _, z := range zero {
-				l := InnermostLoop(loops, z.Block())
-				if !(blk.Dominates(l.Header)) || !IsConstIntValue(z.Val, 0) {
+				t, known := zeroFrom[z]
+				if !known || !IsConstIntValue(z.Val, 0) || t.loop.Blocks[blk] {
 					continue
 				}
-				// index: header phi from len(as), +1, < len(p1)
-				zt := tm.Of(z.Addr)
-				ph, _ := zt.Args[0].Args[1].V.(*ssa.Phi)
-				if ph == nil || ph.Block() != l.Header {
-					continue
-				}
-				init, step := false, false
-				for i, e := range ph.Edges {
-					if !l.Blocks[ph.Block().Preds[i]] {
-						if k := constTermOf(e); k != nil && k.Name == fmt.Sprint(len(as)) {
-							init = true
-						}
-					} else if b, ok := e.(*ssa.BinOp); ok && b.Op == token.ADD && b.X == ssa.Value(ph) && constTermOf(b.Y) != nil && constTermOf(b.Y).Name == "1" {
-						step = true
+				switch {
+				case blk.Dominates(t.loop.Header):
+					// the loop follows the assignments: it starts right behind them and cannot be bypassed
+					if t.from == int64(len(as)) && c02AlwaysReaches(blk, t.loop.Header) {
+						okZero = true
+					}
+				case t.loop.Header.Dominates(blk):
+					// the loop has run to exhaustion (its only exit) before the assignments
+					if t.from <= int64(len(as)) {
+						okZero = true
 					}
 				}
-				if init && step && loopRangesOver(tm, l, "p1") {
-					okZero = true
-				}
 			}
-			r.Check(okZero, fmt.Sprintf("delta.rest-zero[%d species]", len(as)), p.Pos(as[0].st.Pos()), "every other species gets a zero quota", "species after the ones that receive the population keep their old quotas: the quotas total more than the population size")
+			r.Check(okZero && first, fmt.Sprintf("delta.rest-zero[%d species]", len(as)), p.Pos(as[0].st.Pos()), "every other species gets a zero quota", "species after the ones that receive the population keep their old quotas: the quotas total more than the population size")
 		}
 		// the champion's reserved clones mirror the quota
 		for _, a := range as {
@@ -676,6 +692,21 @@ func (r *Run) deltaCodingTotal() {
 		}
 	}
 	r.Floor("delta-coding branches", n, 2)
+}
+
+// constTermOfString: the non-negative integer an index term spells, -1 otherwise.
+func constTermOfString(s string) int64 {
+	if s == "" || len(s) > 9 {
+		return -1
+	}
+	var n int64
+	for _, c := range s {
+		if c < '0' || c > '9' {
+			return -1
+		}
+		n = n*10 + int64(c-'0')
+	}
+	return n
 }
 
 // IsConstIntValue reports whether v is the integer constant n.
